@@ -1164,6 +1164,16 @@ def _c16_worker(job):
         if not out["fault"] and not C.is_err(res):
             moments = getattr(s.impl, "last_moments", {})
             for k, sp in enumerate(specs):
+                if sp[0] != 2 or C.is_err(res[k][1]) or k not in moments or any(m is None for m in moments[k]) or not moments[k]:
+                    continue
+                got = set(x[0] for x in res[k][1])
+                if set.intersection(*moments[k]) - got:
+                    out["fault"] = {"what": "page query under interleaving misses a page that qualified at every moment: %r"
+                                            % (sorted(set.intersection(*moments[k]) - got)[0],)}
+                elif got - set.union(*moments[k]):
+                    out["fault"] = {"what": "page query under interleaving returned a page that qualified at no moment: %r"
+                                            % (sorted(got - set.union(*moments[k]))[0],)}
+            for k, sp in enumerate(specs):
                 if sp[0] != 3 or C.is_err(res[k][1]) or k not in moments or any(m is None for m in moments[k]) or not moments[k]:
                     continue
                 got = set((x[0], x[2]) for x in res[k][1] if x[1] == 0)
